@@ -28,11 +28,18 @@ INVARIANT FramesOK
 `
 
 func modelCfg(dev, progs, checks string) string {
-	return "CONSTANT Dev = {" + dev + "}\nCONSTANT Progs <- " + progs + "\nSPECIFICATION MSpec\n" + checks + "CHECK_DEADLOCK FALSE\n"
+	// the built-in programs are run under every error value, the families
+	// (many more programs) under one: no action reads the value
+	ids := `{"sentinel", "shortwrite", "eof"}`
+	if progs != "BuiltinProgs" {
+		ids = `{"sentinel"}`
+	}
+	return "CONSTANT Dev = {" + dev + "}\nCONSTANT ErrIds = " + ids + "\nCONSTANT Progs <- " + progs + "\nSPECIFICATION MSpec\n" + checks + "CHECK_DEADLOCK FALSE\n"
 }
 
 var (
 	rePid  = regexp.MustCompile(`(?m)^/\\ pid = (\d+)`)
+	reEid  = regexp.MustCompile(`(?m)^/\\ eid = "(\w+)"`)
 	rePlan = regexp.MustCompile(`plan \|-> \[kind \|-> "(\w+)"(?:, k \|-> (\d+))?\]`)
 )
 
@@ -57,6 +64,8 @@ type selfTest struct {
 	Dev      string `json:"dev"`
 	Check    string `json:"check"`
 	Violated string `json:"violated"`
+	Expect   string `json:"expected"`
+	ErrValue string `json:"counterexampleErrorValue,omitempty"`
 	OK       bool   `json:"ok"`
 	Pid      int    `json:"counterexampleProgram"`
 	Plan     string `json:"counterexamplePlan"`
@@ -82,21 +91,29 @@ func modelChecks(ctx *core.Ctx) []*selfTest {
 		"checked": "Latch LatchNow WriterLatch PrefixOk OkMeansComplete CapExact BitesMeansErr NoSpuriousErr FaultFreeClean NoUnspec WithinCap FramesOK LatchLive(temporal); every plan none|failAt 0..W|cap 0..B per program"})
 	ctx.Exhaustive = true
 
-	specs := []struct{ check, decl, expect string }{
-		{"WriterLatch", "INVARIANT WriterLatch\n", "WriterLatch"},
-		{"PrefixOk", "INVARIANT PrefixOk\n", "PrefixOk"},
-		{"OkMeansComplete", "INVARIANT OkMeansComplete\n", "OkMeansComplete"},
-		{"LatchLive", "PROPERTY LatchLive\n", "temporal"},
+	const wed, evs = "write_error_dropped", "error_value_special_cased"
+	specs := []struct{ dev, check, decl, expect string }{
+		{wed, "WriterLatch", "INVARIANT WriterLatch\n", "WriterLatch"},
+		{wed, "PrefixOk", "INVARIANT PrefixOk\n", "PrefixOk"},
+		{wed, "OkMeansComplete", "INVARIANT OkMeansComplete\n", "OkMeansComplete"},
+		{wed, "LatchLive", "PROPERTY LatchLive\n", "temporal"},
+		// the error's value is a dimension of the plan: a design that loses one
+		// value is caught, and only in the behaviours with that value
+		{evs, "WriterLatch", "INVARIANT WriterLatch\n", "WriterLatch"},
+		{evs, "LatchOtherValues", "INVARIANT LatchOtherValues\n", ""},
 	}
 	tests := make([]*selfTest, len(specs))
 	var wg sync.WaitGroup
+	sem := make(chan struct{}, 3) // at most 3 JVMs at a time
 	for i := range specs {
 		wg.Add(1)
 		go func(i int) {
 			defer wg.Done()
+			sem <- struct{}{}
+			defer func() { <-sem }()
 			t := specs[i]
-			r, err := runTLC(ctx, core.TLCOpts{Module: "C12Model", Cfg: modelCfg(`"write_error_dropped"`, "BuiltinProgs", t.decl),
-				Workers: 1, Timeout: 3 * time.Minute, Label: "M1-selftest-write_error_dropped-" + t.check})
+			r, err := runTLC(ctx, core.TLCOpts{Module: "C12Model", Cfg: modelCfg(`"`+t.dev+`"`, "BuiltinProgs", t.decl),
+				Workers: 1, Timeout: 3 * time.Minute, Label: "M1-selftest-" + t.dev + "-" + t.check})
 			if r != nil && r.Violated == "" && strings.Contains(r.Stdout, "Error: Temporal property "+t.check+" was violated") {
 				// this TLC version's wording of a liveness violation
 				r.Violated, err = "temporal", nil
@@ -105,11 +122,17 @@ func modelChecks(ctx *core.Ctx) []*selfTest {
 				ctx.ToolError("M1 self-test %s: %v", t.check, err)
 				return
 			}
-			st := &selfTest{Dev: "write_error_dropped", Check: t.check, Violated: r.Violated,
+			st := &selfTest{Dev: t.dev, Check: t.check, Violated: r.Violated, Expect: t.expect,
 				OK: r.Violated == t.expect || (t.expect == "temporal" && strings.HasPrefix(r.Violated, "temporal"))}
 			st.Pid, st.Plan = counterexample(r.Trace)
+			if m := reEid.FindAllStringSubmatch(r.Trace, -1); len(m) > 0 {
+				st.ErrValue = m[len(m)-1][1]
+			}
+			if t.dev == evs && t.expect != "" && st.ErrValue != "shortwrite" {
+				st.OK = false
+			}
 			if !st.OK {
-				ctx.ToolError("self-test: Dev={write_error_dropped} must violate %s but TLC reported %q - the check is vacuous", t.check, r.Violated)
+				ctx.ToolError("self-test: Dev={%s}, check %s: expected %q but TLC reported %q (error value %q) - the check is vacuous", t.dev, t.check, t.expect, r.Violated, st.ErrValue)
 			}
 			tests[i] = st
 		}(i)
